@@ -3,7 +3,9 @@
   join_all_threads 636-656), as REPAIRED for C10/C11 (DESIGN §7): join() waits for the thread even when a child
   failed; children stay registered until joined.
 
-  A dynamic forest of threads.  Thread 0 is the main thread (always running its "target").  Every thread
+  A dynamic forest of threads.  Thread 0 is the main thread (always running its "target").  Threads are children of the thread that creates them,
+  or orphans (`parent_thread=Null`: registered in ALL only, as the pipe threads of a Process are); MainThread.stop()
+  ends with a sweep of whatever is still registered in ALL.  Every thread
   runs `_run`: register in ALL, target, outcome, shutdown block (snapshot children, stop each, join each,
   clear, unregister from ALL, trigger `stopped`).  While its target runs, a thread issues API calls chosen by
   the environment: spawn a child, stop(u), join(u, till?), join_all(us), release(u), finish.
@@ -39,7 +41,7 @@ inductive Ret
 
 inductive Call
   | idle (r : Ret)
-  | spawn (c : Nat)                                   -- Thread.__init__ … parent.add_child(self) ; start()
+  | spawn (c : Nat)                                   -- Thread.__init__ … parent.add_child(self) ; start()   (no add_child for an orphan)
   | releasing (u : Nat)                               -- :424 self.joiner_is_waiting.go()
   | stopping (work : List SAct)
   | joining (top : List Nat) (work : List JAct) (till : Option Nat) (raised : List Nat) (all : Bool)
@@ -48,7 +50,9 @@ inductive Call
   | m1                                                  -- :207 with child_locker: children = list(self.children)
   | mS (cs : List Nat) (work : List SAct)               -- :209 for c in reversed(children): c.stop()
   | mJ (cs : List Nat) (work : List JAct) (raised : List Nat)   -- :215 join_all_threads(children)
-  | m2 (cs : List Nat) (raised : List Nat)              -- :236 del ALL[self.ident]
+  | m2 (cs : List Nat) (raised : List Nat)              -- :236 with ALL_LOCK: del ALL[self.ident]; residue = list(ALL.values())
+  | mRS (cs raised res : List Nat) (work : List SAct)   -- :243 for t in residue: t.stop()
+  | mRJ (cs raised res : List Nat) (work : List JAct) (raised2 : List Nat)   -- :245 join_all_threads(residue)
   deriving DecidableEq, Repr
 
 inductive Phase
@@ -74,11 +78,12 @@ inductive Label
   | firePstop (u : Nat) | fireStopped (u : Nat) | fireJoiner (u : Nat)
   | waited (u : Nat) (stopped : Bool)
   | startThread (c : Nat)
+  | snapAll (res : List Nat)                -- R ALL (what is left after the main thread took itself out)
   | tau
   deriving DecidableEq, Repr
 
 inductive Op
-  | spawn | stop (u : Nat) | join (u : Nat) (till : Option Nat) | joinAll (us : List Nat) (till : Option Nat)
+  | spawn | spawnOrphan | stop (u : Nat) | join (u : Nat) (till : Option Nat) | joinAll (us : List Nat) (till : Option Nat)
   | release (u : Nat) | finish (o : Outcome) | mainStop
   deriving DecidableEq, Repr
 
@@ -91,6 +96,8 @@ structure State where
   stopped : Nat → Bool
   joiner : Nat → Bool
   inAll : Nat → Bool
+  allOrder : List Nat               -- the registry ALL as a dict: idents in insertion order
+  orphan : Nat → Bool               -- created with parent_thread=Null
   outcome : Nat → Option Outcome
   tillFired : Nat → Bool
   nextId : Nat
@@ -100,7 +107,7 @@ structure State where
 def init : State :=
   { phase := fun t => if t = 0 then .running else .absent, call := fun _ => .idle .none, children := fun _ => [],
     parent := fun _ => 0, pstop := fun _ => false, stopped := fun _ => false, joiner := fun _ => false,
-    inAll := fun t => t = 0, outcome := fun _ => none, tillFired := fun _ => false, nextId := 1, everChild := fun _ => [] }
+    inAll := fun t => t = 0, allOrder := [0], orphan := fun _ => false, outcome := fun _ => none, tillFired := fun _ => false, nextId := 1, everChild := fun _ => [] }
 
 def upd {α : Type} (f : Nat → α) (t : Nat) (v : α) : Nat → α := fun u => if u = t then v else f u
 
@@ -115,6 +122,8 @@ def call (s : State) (t : Nat) (op : Op) : Option State :=
   | .running, .idle _ =>
     match op with
     | .spawn => some { s with call := upd s.call t (.spawn s.nextId), nextId := s.nextId + 1, parent := upd s.parent s.nextId t }
+    | .spawnOrphan => some { s with call := upd s.call t (.spawn s.nextId), nextId := s.nextId + 1, parent := upd s.parent s.nextId s.nextId,
+                                    orphan := upd s.orphan s.nextId true }
     | .stop u => some { s with call := upd s.call t (.stopping [.visit u]) }
     | .join u tl => some { s with call := upd s.call t (.joining [u] [.start u] tl [] false) }
     | .joinAll us tl => some { s with call := upd s.call t (.joining us (us.map .start) tl [] true) }
@@ -153,7 +162,7 @@ def stepJoin (s : State) (t : Nat) (top : List Nat) (work : List JAct) (tl : Opt
     else none
   | .unreg u :: rest =>
     some ({ s with children := upd s.children (s.parent u) ((s.children (s.parent u)).erase u), call := upd s.call t (k rest raised) },
-          .unreg u (s.parent u) ((s.children (s.parent u)).contains u))
+          if s.orphan u then .tau else .unreg u (s.parent u) ((s.children (s.parent u)).contains u))   -- Null.remove_child: nothing happens
   | .finish u cs :: rest =>
     some ({ s with call := upd s.call t (k rest (if didRaise s raised u cs then (if raised.contains u then raised else u :: raised) else raised)) }, .tau)
 
@@ -180,12 +189,13 @@ def step (s : State) (t : Nat) : Option (State × Label) :=
   match s.phase t with
   | .absent => none
   | .dead => none
-  | .created => some ({ s with phase := upd s.phase t .running, inAll := upd s.inAll t true }, .allAdd t)
+  | .created => some ({ s with phase := upd s.phase t .running, inAll := upd s.inAll t true,
+                                allOrder := if s.inAll t then s.allOrder else s.allOrder ++ [t] }, .allAdd t)
   | .running =>
     match s.call t with
     | .idle _ => none
     | .spawn c =>
-      if c ∈ s.children t then
+      if c ∈ s.children t ∨ s.orphan c = true then     -- an orphan (parent_thread=Null) is registered nowhere: started at once
         some ({ s with call := upd s.call t (.idle .done), phase := upd s.phase c .created }, .startThread c)   -- start(): the new OS thread exists from now on
       else
         some ({ s with children := upd s.children t (s.children t ++ [c]), everChild := upd s.everChild t (s.everChild t ++ [c]) }, .reg c t)
@@ -208,8 +218,18 @@ def step (s : State) (t : Nat) : Option (State × Label) :=
       match work with
       | [] => some ({ s with call := upd s.call t (.m2 cs raised) }, .tau)
       | _ => stepJoin s t cs work none raised true (fun w r => .mJ cs w r)
-    | .m2 cs raised => some ({ s with inAll := upd s.inAll t false, call := upd s.call t (.idle (if cs.any raised.contains then .allRaised else .done)) }, .allDel t)
-  | .peek o => some ({ s with phase := upd s.phase t .fin1 }, .peek (s.parent t))
+    | .m2 cs raised =>
+      let res := s.allOrder.erase t
+      some ({ s with inAll := upd s.inAll t false, allOrder := res, call := upd s.call t (.mRS cs raised res (res.map .visit)) }, .snapAll res)
+    | .mRS cs raised res work =>
+      match work with
+      | [] => some ({ s with call := upd s.call t (.mRJ cs raised res (res.map .start) []) }, .tau)
+      | _ => stepStop s t work (.mRS cs raised res)
+    | .mRJ cs raised res work raised2 =>
+      match work with
+      | [] => some ({ s with call := upd s.call t (.idle (if res.any raised2.contains || cs.any raised.contains then .allRaised else .done)) }, .tau)
+      | _ => stepJoin s t res work none raised2 true (fun w r => .mRJ cs raised res w r)
+  | .peek o => some ({ s with phase := upd s.phase t .fin1 }, if s.orphan t then .tau else .peek (s.parent t))
   | .fin1 => some ({ s with phase := upd s.phase t (.fin2 (s.children t)), call := upd s.call t (.stopping ((s.children t).map .visit)) },
                    .snap t (s.children t))
   | .fin2 cs =>
@@ -223,7 +243,7 @@ def step (s : State) (t : Nat) : Option (State × Label) :=
     | .joining top work tl raised all => stepJoin s t top work tl raised all (fun w r => .joining top w tl r all)
     | _ => none
   | .fin4 cs => some ({ s with children := upd s.children t [], phase := upd s.phase t (.fin5 cs) }, .clear t)
-  | .fin5 cs => some ({ s with inAll := upd s.inAll t false, phase := upd s.phase t (.fin6 cs) }, .allDel t)
+  | .fin5 cs => some ({ s with inAll := upd s.inAll t false, allOrder := s.allOrder.erase t, phase := upd s.phase t (.fin6 cs) }, .allDel t)
   | .fin6 _ => some ({ s with stopped := upd s.stopped t true, phase := upd s.phase t .linger }, .fireStopped t)
   | .linger => if s.joiner t then some ({ s with phase := upd s.phase t .dead }, .tau) else none
 
